@@ -28,6 +28,10 @@ var vC06Accessors = []string{
 	/*15*/ "Queries",
 	/*16*/ "Params-generic",
 	/*17*/ "Route-Path",
+	/*18*/ "IP-validated",
+	/*19*/ "IP-header",
+	/*20*/ "IPs",
+	/*21*/ "Subdomains",
 }
 
 func vToken(name string, n int) string {
@@ -46,7 +50,7 @@ func VH_C06_immutable(caseID int) {
 	acc := vC06Accessors[caseID%100]
 	vStub("html.EscapeString=identity")
 	vStub("fasthttp.normalizePath=skip")
-	app := New(Config{Immutable: immutable, ErrorHandler: vStatusOnly})
+	app := New(Config{Immutable: immutable, ErrorHandler: vStatusOnly, ProxyHeader: "X-Fwd", EnableIPValidation: acc == "IP-validated" || acc == "IPs"})
 	var kept string
 	var keptB []byte
 	inHandler := ""
@@ -92,6 +96,16 @@ func VH_C06_immutable(caseID int) {
 			kept = c.Method()
 		case "Route-Path":
 			kept = c.Route().Path
+		case "IP-validated", "IP-header":
+			kept = c.IP()
+		case "IPs":
+			if l := c.IPs(); len(l) == 2 {
+				kept = l[1]
+			}
+		case "Subdomains":
+			if l := c.Subdomains(1); len(l) == 1 {
+				kept = l[0]
+			}
 		}
 		if keptB != nil {
 			inHandler = string(keptB)
@@ -105,11 +119,15 @@ func VH_C06_immutable(caseID int) {
 	// only the tokens the accessor depends on are symbolic, the others are fixed
 	rel := map[string]string{"Params": "v", "Params-generic": "v", "Path": "v", "OriginalURL": "vq", "Route-Path": "v", "Protocol": "v",
 		"Query": "q", "Queries": "q", "Cookies": "q", "Get": "h", "GetReqHeaders": "h", "Host": "h", "Hostname": "h", "BaseURL": "h",
-		"Body": "b", "BodyRaw": "b", "Body-identity-encoding": "b", "Method": "v"}[acc]
+		"Body": "b", "BodyRaw": "b", "Body-identity-encoding": "b", "Method": "v",
+		"IP-validated": "i", "IP-header": "i", "IPs": "i", "Subdomains": "h"}[acc]
 	tok := func(kind byte, name string, n int, fixed string) string {
 		for i := 0; i < len(rel); i++ {
 			if rel[i] == kind {
 				t := vToken(name, n)
+				if kind == 'i' {
+					vAssume(vAnd(t[0] >= '1', t[0] <= '9'))
+				}
 				if kind == 'h' {
 					// host names are lower-cased by fasthttp
 					for j := 0; j < len(t); j++ {
@@ -126,8 +144,12 @@ func VH_C06_immutable(caseID int) {
 	q1 := tok('q', "q1", 2, "q1")
 	h1 := tok('h', "h1", 2, "h1")
 	b1 := tok('b', "b1", 3, "bd1")
+	i1 := tok('i', "i1", 1, "7")
 	fctx := &fasthttp.RequestCtx{}
+	ipd := i1
 	fill := func(v, q, h, b string) {
+		fctx.Request.Header.Set("X-Fwd", "10.0.0."+ipd)
+		fctx.Request.Header.Set("X-Forwarded-For", "10.0.0."+ipd+", 10.0.1."+ipd)
 		fctx.Request.Header.SetMethod("POST")
 		fctx.Request.SetRequestURI("/u/" + v + "?q=" + q)
 		fctx.Request.Header.SetHost(h + ".io")
@@ -171,6 +193,12 @@ func VH_C06_immutable(caseID int) {
 		want = "POST"
 	case "Route-Path":
 		want = "/u/:v"
+	case "IP-validated", "IP-header":
+		want = "10.0.0." + i1
+	case "IPs":
+		want = "10.0.1." + i1
+	case "Subdomains":
+		want = h1
 	}
 	vAssert(inHandler == want, "correct-inside-handler")
 	if !immutable {
@@ -186,6 +214,7 @@ func VH_C06_immutable(caseID int) {
 	q2 := tok('q', "q2", 2, "q2")
 	h2 := tok('h', "h2", 2, "h2")
 	b2 := tok('b', "b2", 3, "bd2")
+	ipd = tok('i', "i2", 1, "8")
 	fill(v2, q2, h2, b2)
 	if acc == "Protocol" {
 		fctx.Request.Header.SetProtocol("HTTP/1.1")
